@@ -6,3 +6,5 @@ run W5 1 C02 C03 C18; run W5 2 C04 C18; run W5 3 C06; run W5 4 C12 C13 C14; run 
 run W6 1 C01 C08; run W6 2 C09 C17; run W6 3 C02 C04; run W6 4 C06 C07 C10; run W6 5 C11 C12 C14 C17
 # third agent (round 6): patches 1, 3, 4, 5 (and 2 for C15) restructure loops / layouts that carry a contract -> exit 2 (undecided) is expected there, never exit 1
 run X6 1 C06; run X6 2 C15; run X6 3 C11 C17; run X6 4 C16; run X6 5 C04 C18; run X6 6 C19
+# fourth agent (round 8): six small everyday edits (renames, return -> break, dead counter, casts / argument temporaries, hoisted bound) -> all exit 0
+run Z5 1 C11; run Z5 2 C13; run Z5 3 C07 C10; run Z5 4 C03; run Z5 5 C15; run Z5 6 C08
